@@ -45,6 +45,7 @@ type c20Case struct {
 	Streak  int   `json:"refused_dials"`
 	Delays  bool  `json:"delay_injection"`
 	Valid   bool  `json:"session_id_validation,omitempty"`
+	Equip   bool  `json:"equipment_role,omitempty"`
 }
 
 type c20Call struct {
@@ -72,12 +73,13 @@ func c20One(env *fw.Env, i int64) {
 	r := env.RandAt("hist", i)
 	cs := c20Case{Index: i, Active: i%2 == 0, Senders: []int{1, 2, 4, 8, 16, 32}[r.IntN(6)], Per: 4 + r.IntN(7), Streak: r.IntN(5), Delays: r.IntN(2) == 0}
 	cs.Valid = i%3 == 1 // the optional session-id validation: a foreign-session data frame is still a received data frame
+	cs.Equip = i%5 == 2 // equipment role: every T3 timeout also puts one S9F9 (a data frame of ours) on the wire
 	env.Begin(i, cs)
 	env.Sample(cs)
 	env.Event("histories", 1)
 	t3 := 200 * time.Millisecond
 	var asyncErrCallbacks atomic.Int64
-	rg, err := newRig(rigOpts{Active: cs.Active, T3: t3, T5: 40 * time.Millisecond, BackoffInit: 10 * time.Millisecond, ValidateSession: cs.Valid,
+	rg, err := newRig(rigOpts{Active: cs.Active, T3: t3, T5: 40 * time.Millisecond, BackoffInit: 10 * time.Millisecond, ValidateSession: cs.Valid, Equip: cs.Equip,
 		Extra: []hsms.ConnOption{hsms.WithAsyncSendErrorHandler(func(hsms.Message, error) { asyncErrCallbacks.Add(1) })}})
 	if err != nil {
 		env.Discard()
@@ -321,6 +323,10 @@ func c20One(env *fw.Env, i int64) {
 		}
 	}
 	count(callsA, &tA)
+	if cs.Equip {
+		s9 += tA.t3 // one S9F9 per T3 timeout (all of them happened while Selected and fault-free)
+		env.Event("s9f9_expected_for_t3_timeouts", tA.t3)
+	}
 	if !quiesce(accepted(callsA)+s9, pc) {
 		env.Violate("link-dropped", "the fault-free part lost the link", cs)
 		return
@@ -410,7 +416,7 @@ func c20One(env *fw.Env, i int64) {
 	check("recovered", "DataMsgInflightCount", mt.DataMsgInflightCount(), 0)
 	check("recovered", "Reconnecting", mt.Reconnecting(), 0)
 	check("recovered", "Reconnects", int64(mt.Reconnects()), 1)
-	if got, lo, hi := int64(mt.DataMsgSendCount()), dataAt(pc, pc2), tA.accepted+tB.accepted+s9; got < lo || got > hi {
+	if got, lo, hi := int64(mt.DataMsgSendCount()), dataAt(pc, pc2), tA.accepted+tB.accepted+s9+tB.t3; got < lo || got > hi { // (+T3s of part B: an equipment may have got an S9F9 out)
 		env.Violate("counter-DataMsgSendCount-recovered", fmt.Sprintf("DataMsgSendCount=%d outside [frames the peer received=%d, accepted calls=%d]", got, lo, hi), cs)
 	}
 	if got, want := int64(mt.DataMsgErrCount())-errBefore, tB.t3+tB.other; got != want {
